@@ -476,6 +476,33 @@ func (c *Ctx) c07ZipWalker() {
 	if nHeaders < 2 {
 		c.violate("Z1", fname(walker)+"/headers", c.pos(walker.Pos()), "expected a directory header and a file header")
 	}
+	// every entry other than the root gets a header: no successful return of the walker before CreateHeader,
+	// except the root directory itself (path == source)
+	{
+		isHeader := func(in ssa.Instruction) bool {
+			cl, ok := in.(*ssa.Call)
+			return ok && strings.HasSuffix(calleeFull(&cl.Call), "zip.Writer).CreateHeader")
+		}
+		isRootTest := func(v ssa.Value) bool {
+			b, ok := v.(*ssa.BinOp)
+			if !ok || b.Op.String() != "==" {
+				return false
+			}
+			return (stripConv(b.X) == ssa.Value(pathParam) && strings.Contains(resolveFreeVarName(b.Y), "source")) ||
+				(stripConv(b.Y) == ssa.Value(pathParam) && strings.Contains(resolveFreeVarName(b.X), "source"))
+		}
+		prune := func(b *ssa.BasicBlock, k int) bool {
+			ifi, ok := b.Instrs[len(b.Instrs)-1].(*ssa.If)
+			if !ok {
+				return false
+			}
+			v, ts := boolTest(ifi)
+			return isRootTest(v) && k == ts
+		}
+		esc := pathPruned(walker, nil, isHeader, func(in ssa.Instruction) bool { return isReturnOK(walker, in) }, prune)
+		c.check(esc == nil, "Z1", fname(walker)+"/every-entry", c.pos(walker.Pos()), "every walked entry except the root gets a header before the walker returns successfully",
+			"the walker can return successfully at "+c.iposOr(esc)+" without having written a header for the entry: that entry is missing from the archive")
+	}
 	// content: CopyDataWithContext(ctx, GenericOpen(path), CreateHeader(header))
 	var cp *ssa.Call
 	allInstrs(walker, func(in ssa.Instruction) {
